@@ -59,6 +59,10 @@ def build_aave(sim, mw):
     market = AaveV3Market(MarketInfo(mw["name"], MarketTypeEnum.aave_v3), path, tokens=infos)  # real load_risk_parameter
     os.unlink(path)
     n = len(sim.index)
+    if mw.get("via_files"):
+        _load_through_files(sim, mw, market, tokens, tmp)
+        sim.mdata[mw["name"]] = {"mw": mw, "tokens": tokens}
+        return market
     for t, info in zip(tokens, infos):
         cols = {}
         for c in COLS:
@@ -73,6 +77,45 @@ def build_aave(sim, mw):
         market.set_token_data(info, df)  # real: Decimal conversion + (TOKEN, col) MultiIndex columns
     sim.mdata[mw["name"]] = {"mw": mw, "tokens": tokens}
     return market
+
+
+def _load_through_files(sim, mw, market, tokens, tmp):
+    """The market's minute rows written as demeter-fetch day files, one set per token, and read back through the REAL loader
+    (AaveV3Market.load_data -> load_aave_data: read_csv with Decimal converters, per-token column blocks), with the loader's
+    feather cache pointed at a private empty directory."""
+    import shutil
+    import tempfile
+
+    import demeter.data.data_cache as DC
+    from demeter import ChainType, TokenInfo
+
+    root = tempfile.mkdtemp(prefix="aave-files-", dir=tmp)
+    saved = (DC.CACHE_PATH, DC.CACHE_CONFIG_PATH)
+    try:
+        DC.CACHE_PATH = os.path.join(root, "cache")
+        DC.CACHE_CONFIG_PATH = os.path.join(DC.CACHE_PATH, "config.pkl")
+        n = len(sim.index)
+        infos = []
+        for t in tokens:
+            info = TokenInfo(t, int(sim.world["tokens"][t]), "0x" + t.lower())
+            infos.append(info)
+            days = {}
+            for i, ts in enumerate(sim.index):
+                row = [str(ts)]
+                for c in COLS:
+                    series = mw.get(c, {}).get(t)
+                    row.append(str(series[i]) if series is not None else ("0" if c.endswith("rate") else "1"))
+                days.setdefault(ts.date(), []).append(",".join(row))
+            d, d1 = sim.index[0].date(), sim.index[-1].date()
+            while d <= d1:
+                with open(os.path.join(root, f"polygon-aave_v3-{info.address}-{d.strftime('%Y-%m-%d')}.minute.csv"), "w") as f:
+                    f.write("block_timestamp," + ",".join(COLS) + "\n" + "\n".join(days.get(d, [])) + "\n")
+                d += pd.Timedelta(days=1).to_pytimedelta()
+        market.data_path = root
+        market.load_data(ChainType.polygon, infos, sim.index[0].date(), sim.index[-1].date())
+    finally:
+        DC.CACHE_PATH, DC.CACHE_CONFIG_PATH = saved
+        shutil.rmtree(root, ignore_errors=True)
 
 
 # ------------------------------------------------------------------------------------------------- arg helpers
